@@ -436,6 +436,18 @@ pub(crate) fn op_read_at(slot: usize, buf: &mut [u8], offset: u64) -> io::Result
         buf[..n].copy_from_slice(unsafe { &BIG[off..off + n] });
         return Ok(n);
     }
+    if unsafe { PREAD_BLOCK_COPY } {
+        // one block copy instead of a byte loop: lets a harness read a whole
+        // record back with a small unwinding bound
+        let off = offset as usize;
+        if off + n > FBYTES {
+            #[cfg(kani)]
+            kani::assume(false);
+            return Ok(0);
+        }
+        buf[..n].copy_from_slice(&bytes(slot)[off..off + n]);
+        return Ok(n);
+    }
     let mut i = 0;
     while i < n {
         let p = offset as usize + i;
@@ -449,6 +461,8 @@ pub(crate) fn op_read_at(slot: usize, buf: &mut [u8], offset: u64) -> io::Result
     }
     Ok(n)
 }
+
+pub(crate) static mut PREAD_BLOCK_COPY: bool = false;
 
 pub(crate) fn op_unlink(slot: usize) -> io::Result<()> {
     tick();
